@@ -95,16 +95,68 @@ def parse_methods(gen_dir):
 
 
 def parse_cls_theorems(lean_root):
-    """class -> list of explicit binder names of `<class>_sound` (in order, incl. hypotheses and `w`, `h`)"""
+    """class -> dict(binders=[explicit binder names of `<class>_sound`], fields={param: (lo, len)}, mask, val)"""
     res = {}
     d = os.path.join(lean_root, "DoraModel", "Props", "C08")
     files = [os.path.join(d, f) for f in sorted(os.listdir(d)) if f.endswith(".lean")]
     files.append(os.path.join(lean_root, "DoraModel", "Props", "C08.lean"))
     for p in files:
         src = open(p).read()
-        for m in re.finditer(r"^theorem (\w+)_sound((?:\s*\([^)]*\))*)\s*:", src, re.M):
-            res[m.group(1)] = [b for b, _ in re.findall(r"\((\w+) : ([^)]*)\)", m.group(2))]
+        for m in re.finditer(r"^theorem (\w+)_sound((?:\s*\([^)]*\))*)\s*:(.*?):= by", src, re.M | re.S):
+            stmt = m.group(3)
+            fields = {}
+            for lo, ln, par in re.findall(r"w\.extractLsb' (\d+) (\d+) = BitVec\.setWidth \d+ (\w+)\s*(?:∧|$)", stmt):
+                fields[par] = (int(lo), int(ln))
+            mv = re.search(r"w &&& (\d+)#32 = (\d+)#32\s*$", stmt.strip())
+            res[m.group(1)] = dict(binders=[b for b, t in re.findall(r"\((\w+) : ([^)]*)\)", m.group(2)) if "=" not in t], fields=fields,
+                                   mask=int(mv.group(1)) if mv else 0, val=int(mv.group(2)) if mv else 0)
     return res
+
+
+def split_args(text):
+    """top-level space separated arguments of an application (parentheses respected)"""
+    out, cur, depth = [], "", 0
+    for ch in text:
+        if ch == "(":
+            depth += 1
+        elif ch == ")":
+            depth -= 1
+        if ch == " " and depth == 0:
+            if cur:
+                out.append(cur)
+            cur = ""
+        else:
+            cur += ch
+    if cur:
+        out.append(cur)
+    return out
+
+
+LIT = {"FLOAT_TYPE_SINGLE": 0, "FLOAT_TYPE_DOUBLE": 1}
+
+
+def method_mask(cls, bodies, cls_thms):
+    """fixed bits of the word a method emits through `cls`: the class' opcode bits plus every field that the (first)
+    call of the class encoder in `bodies` fills with a literal. Only a hint for the proof (`bv_decide` checks it)."""
+    info = cls_thms[cls]
+    mask, val = info["mask"], info["val"]
+    m = re.search(r"\bcls\.%s ([^\n]*)" % cls, bodies)
+    if not m:
+        return mask, val
+    args = split_args(m.group(1).strip())
+    params = [b for b in info["binders"] if b != "w"]
+    for par, a in zip(params, args):
+        a = a.strip("()")
+        k = LIT.get(a)
+        mm = re.fullmatch(r"(\d+)#32", a)
+        if mm:
+            k = int(mm.group(1))
+        if k is not None and par in info["fields"]:
+            lo, ln = info["fields"][par]
+            fm = ((1 << ln) - 1) << lo
+            mask |= fm
+            val = (val & ~fm) | ((k << lo) & fm)
+    return mask, val
 
 
 def arg_of(kind, p):
@@ -161,18 +213,19 @@ def theorem_text(name, kinds, methods, cls_thms):
     if not cl:
         return None, "no class encoder is called"
     unknown = [c for c in cl if c not in CLS_DEC or c not in cls_thms]
+    bodies = "\n".join(methods[n][1] for n in [name] + callees(name, methods))
     if unknown:
         return None, "class encoder without decoder table entry / class theorem: %s" % ", ".join(unknown)
     unfold = " ".join("AssemblerArm64.%s" % n for n in [name] + callees(name, methods))
     unfold += " inst.b_cond_imm" if "inst.b_cond_imm" in "".join(methods[n][1] for n in [name] + callees(name, methods)) else ""
     enums = [p for (p, t) in params if t in ("Shift", "Cond", "Extend")]
-    cases = "".join(" <;> cases %s" % e for e in enums)
+    cases = "".join("cases %s <;> " % e for e in enums)
     alts = []
     for c in cl:
-        hyps = " ".join("(by first | assumption | decide)" for b_ in cls_thms[c] if b_.startswith("h") and b_ != "h")
         dec = CLS_DEC[c]
-        alts.append("(method_pre (%s_sound (h := by assumption)) decode_%s dec%s%s <;> method_fin)"
-                    % (c, dec, re.sub(r"^(LdStPair)\d$", r"\1", dec), cases))
+        mk, vl = method_mask(c, bodies, cls_thms)
+        alts.append("(%smethod_pre (%s_sound (h := by assumption)) decode_%s dec%s %d#32 %d#32 <;> method_fin)"
+                    % (cases, c, dec, re.sub(r"^(LdStPair)\d$", r"\1", dec), mk, vl))
     core = alts[0] if len(alts) == 1 else "first\n    | " + "\n    | ".join(alts)
     nsplit = sum(len(re.findall(r"^\s*if .* then$", methods[n][1], re.M)) for n in [name] + callees(name, methods))
     doc = ("/-- `%s`: if the method accepts its operands%s, it appends one word `w`, and `w` decodes under the reference "
@@ -184,13 +237,9 @@ def theorem_text(name, kinds, methods, cls_thms):
              "    (h : (AssemblerArm64.%s %s).run s = .ok ((), s')) :" % (name, call),
              "    ∃ w, s' = emitted s w ∧ Requested (spec \"%s\" [%s]) w := by" % (name, args),
              "  unfold %s at h" % unfold]
-    if nsplit:
-        lines.append("  method_split h")
-        lines.append("  all_goals (peel hA h)")
-        lines.append("  all_goals (%s)" % core.replace("\n    ", " "))
-    else:
-        lines.append("  peel hA h")
-        lines.append("  " + core)
+    lines.append("  method_split h")
+    lines.append("  all_goals (%s hA h)" % ("peel_imm" if "encode_addsub_imm" in bodies else "peel"))
+    lines.append("  all_goals (%s)" % core.replace("\n    ", " "))
     return "\n".join(lines) + "\n", None
 
 
